@@ -61,7 +61,8 @@ def _run_one(args):
     if twin['status'] != 'ok' or not twin.get('last_ret') or twin.get(
             'hit_cap'):
         return out
-    ops = e1.draw_history(rng, cfg, twin['timeline'], spec.profile)
+    ops = e1.draw_history(rng, cfg, twin['timeline'], spec.profile,
+                          twin.get('probes'))
     ops = spec.extra_ops(rng, cfg, ops)
     m = spec.monitor()
     res = e1.execute(dict(cfg=cfg, ops=ops, tag='hist'), [m],
